@@ -96,4 +96,66 @@ theorem C12_every_interface_forwards :
 /-- Non-vacuity: interleaved metadata groups `a a b a b b a` with limit 1 selects shards 0 and 2 -/
 example : select [⟨0, 1⟩, ⟨1, 1⟩, ⟨2, 2⟩, ⟨3, 1⟩, ⟨4, 2⟩, ⟨5, 2⟩, ⟨6, 1⟩] none none (some 1) = .ok [⟨0, 1⟩, ⟨2, 2⟩] := by rfl
 
+theorem limitLoop_all (n : Nat) : ∀ (l : List ShardI) (counts : Nat → Nat), (∀ m, counts m + l.length ≤ n) → limitLoop n l counts = l := by
+  intro l
+  induction l with
+  | nil => intro _ _; rfl
+  | cons s rest ih =>
+    intro counts h
+    have hs := h s.md
+    simp only [List.length_cons] at hs
+    simp only [limitLoop]
+    have hle : counts s.md + 1 ≤ n := by omega
+    simp only [hle, if_true]
+    congr 1
+    apply ih
+    intro m
+    have hm := h m
+    simp only [List.length_cons] at hm
+    by_cases hms : m = s.md
+    · simp [hms]; omega
+    · simp [hms]; omega
+
+/-- **Options that select nothing away do nothing**: with a predicate, a shard count and a per-metadata limit that are both at
+least the number of shards the predicate keeps, the selection is exactly the predicate's — the predicate keeps deciding. -/
+theorem C12_nonbinding_options (infos : List ShardI) (p : ShardI → Bool) (k n : Nat) (hne : infos.filter p ≠ [])
+    (hk : (infos.filter p).length ≤ k) (hn : (infos.filter p).length ≤ n) :
+    select infos (some p) (some (k : Int)) (some n) = .ok (infos.filter p) := by
+  have hk0 : k ≠ 0 := by
+    intro h; subst h
+    have : (infos.filter p).length = 0 := by omega
+    exact hne (List.length_eq_zero_iff.mp this)
+  have hn0 : n ≠ 0 := by
+    intro h; subst h
+    have : (infos.filter p).length = 0 := by omega
+    exact hne (List.length_eq_zero_iff.mp this)
+  simp only [select, stageFilter, hne, if_false, stageFirstK, stageLimit, hn0]
+  have hki : ((k : Int) = 0) = False := by simp; omega
+  simp only [hki, if_false, pySliceTo]
+  have : (k : Int) ≥ 0 := by omega
+  simp only [this, if_true, Int.toNat_natCast, List.take_of_length_le hk]
+  rw [limitLoop_all n _ _ (by intro m; simpa using hn)]
+
+/-- with every combination of options, whatever is selected satisfies the predicate -/
+theorem C12_selected_satisfy_predicate (infos : List ShardI) (p : ShardI → Bool) (k : Option Int) (n : Option Nat) (out : List ShardI)
+    (h : select infos (some p) k n = .ok out) : ∀ s ∈ out, p s = true := by
+  obtain ⟨_, rfl⟩ := select_ok infos (some p) k n out h
+  have h2 : ∀ l : List ShardI, (stageFirstK l k).Sublist l := by
+    intro l; cases k with
+    | none => exact List.Sublist.refl _
+    | some k => simp only [stageFirstK]; split
+                · exact List.Sublist.refl _
+                · exact (pySliceTo_prefix l k).sublist
+  have h3 : ∀ l : List ShardI, (stageLimit l n).Sublist l := by
+    intro l; cases n with
+    | none => exact List.Sublist.refl _
+    | some n => simp only [stageLimit]; split
+                · exact List.Sublist.refl _
+                · exact limitLoop_sublist n l _
+  intro s hs
+  have := ((h3 _).trans (h2 _)).subset hs
+  simp only [stageFilter, List.mem_filter] at this
+  exact this.2
+
+
 end Sedpack.Sel
